@@ -1,5 +1,5 @@
 SPECIFICATION Spec
 CONSTANTS MaxT = 12  MaxSymbols = 9  MaxZ = 6
   Directed <- DirectedThorough
-INVARIANTS PartitionOk CoversObject Emit
+INVARIANTS PartitionOk CoversObject OffsetsOk Emit
 CHECK_DEADLOCK FALSE
